@@ -221,20 +221,7 @@ def check(ctx):
     er_ = E.discover(m)
     ctx.run(rule_frames_of_created_calls, "C19.S2", R.discover(m, er_))
     # ---------------------------------------------------------------- S3
-    radd, rsrc = m.method("Registry", "add", "S3"), m.method("Registry", "source", "S3")
-    rv = [c for c in radd.own_calls() if any(o[0] == "class" and o[1] is roles.registry_value(m) for o in m.callee_origins(radd, c))]
-    ok = len(rv) == 1 and isinstance(arg(rv[0], None, "stack_frame"), ast.Call) and gsf in m.callee_funcs(radd, arg(rv[0], None, "stack_frame"))
-    ctx.ob("C19.S3", "Registry.add/entry-frame", ok, loc(radd), "the entry stores the frame of the registry.add line" if ok else "Registry.add does not store the captured frame")
-    rv = [c for c in rsrc.own_calls() if any(o[0] == "class" and o[1] is roles.registry_value(m) for o in m.callee_origins(rsrc, c))]
-    cs = [c for c in rsrc.own_calls() if pcall in m.callee_funcs(rsrc, c)]
-    ok = len(rv) == 1 and len(cs) == 1 and isinstance(arg(rv[0], None, "stack_frame"), ast.Name) and cs[0].args and norm(cs[0].args[0]) == norm(arg(rv[0], None, "stack_frame"))
-    ctx.ob("C19.S3", "Registry.source/one-frame", ok, loc(rsrc), "the source node and its entry share one captured frame" if ok else
-           "Registry.source uses different frames for the node and the entry")
-    rc = m.method("Registry", "copy", "S3")
-    dcs = [n for n in rc.own_nodes() if isinstance(n, ast.DictComp)]
-    ok = len(dcs) == 1 and (norm(dcs[0].value).startswith("copy.copy(") or "stack_frame=" in norm(dcs[0].value))
-    ctx.ob("C19.S3", "Registry.copy/keeps-frames", ok, loc(rc), "copied entries keep their stack frame (copy.copy of each entry)" if ok else
-           "Registry.copy rebuilds entries without their stack frame: failures of store calls planned from a copied registry are attributed to nothing")
+    ctx.run(rule_registry_frames, "C19.S3", R.discover(m, er_))
     from .extra import rule_capture_method_callers
     ctx.run(rule_capture_method_callers, "C19.S1")
     er = E.discover(m)
@@ -253,6 +240,64 @@ def check(ctx):
         any(isinstance(n, ast.Assign) and norm(n.targets[0]) == f"{init.pos_params[0]}.call" and norm(n.value) == cp_ for n in init.own_nodes())
     ctx.ob("C19.S4", "CallError/renders-call-frame", ok, loc(init), "CallError keeps the call and renders its stack frame" if ok else
            "CallError does not render the failing call's own stack frame")
+
+
+def rule_registry_frames(ctx, rid, rr):
+    """Registry.add / Registry.source / Registry.copy, evaluated on an abstract plan with the frame capture stubbed by a counter:
+    add captures once and the entry keeps that frame; source captures once and both the created node and its entry carry that
+    frame; copied entries keep frame, store and source flag.  Independent of helpers the methods share."""
+    from ..absval import AbsRaise, Obj, Stub
+    from .rewriterules import World
+    from copy import copy as _pycopy
+    m = ctx.model
+    regc = m.one_class("Registry", "S3")
+    w = World(m, rr)
+    count = [0]
+
+    def gsf_stub(*a):
+        count[0] += 1
+        return f"F#{count[0]}"
+    w.interp.stubs["get_stack_frame"] = Stub("get_stack_frame", gsf_stub)
+    for nm in ("assert_is_instance", "assert_is_callable", "assert_can_bind"):
+        w.interp.stubs[nm] = Stub(nm, lambda *a, **k: None)
+    w.interp.ext["copy.copy"] = lambda o: Obj(o.cls, dict(o.attrs), name=o.name) if isinstance(o, Obj) else _pycopy(o)
+    reg = Obj(regc, {}, name="registry")
+    init = regc.lookup("__init__")
+    try:
+        if init is not None and not isinstance(init, tuple):
+            w.interp.call_func(init, None, [], {}, bound_self=reg)
+        x = w.call("x")
+        vs_ = m.one_class("ValueStore", "S3")  # public API: the stores are instances of it, so the methods' own validation passes
+        store1 = Obj(vs_, {}, name="store1", truthy=False)
+        store2 = Obj(vs_, {}, name="store2", truthy=False)
+        w.interp.call(w.interp.getattr(reg, "add"), [x, store1], {})
+        n_add = count[0]
+        ent = reg.attrs.get("mapping", {}).get(x)
+        ok = n_add == 1 and isinstance(ent, Obj) and ent.attrs.get("stack_frame") == "F#1" and ent.attrs.get("value_store") is store1 \
+            and ent.attrs.get("is_source") is False
+        ctx.ob(rid, "Registry.add/entry-frame", ok, loc(regc.methods["add"]),
+               "evaluated: add captures the frame once and the entry stores it (with the store, not a source)" if ok else
+               f"evaluated: registry.add captured {n_add} frame(s) and stored the entry {ent.attrs if isinstance(ent, Obj) else ent!r}: a failed "
+               f"store write is not attributed to the registry.add line")
+        node = w.interp.call(w.interp.getattr(reg, "source"), [w.plan, store2], {})
+        ent2 = reg.attrs.get("mapping", {}).get(node) if isinstance(node, Obj) else None
+        ok = count[0] == n_add + 1 and isinstance(node, Obj) and node.attrs.get("stack_frame") == f"F#{count[0]}" and isinstance(ent2, Obj) \
+            and ent2.attrs.get("stack_frame") == f"F#{count[0]}" and ent2.attrs.get("is_source") is True and ent2.attrs.get("value_store") is store2
+        ctx.ob(rid, "Registry.source/one-frame", ok, loc(regc.methods["source"]),
+               "evaluated: source captures the frame once; the created node and its entry carry it" if ok else
+               "evaluated: Registry.source does not give the source node and its entry the one frame captured at the registry.source line")
+        cp = w.interp.call(w.interp.getattr(reg, "copy"), [], {})
+        mp = cp.attrs.get("mapping", {}) if isinstance(cp, Obj) else {}
+        ok = isinstance(cp, Obj) and cp is not reg and mp is not reg.attrs.get("mapping") and set(map(id, mp)) == set(map(id, reg.attrs["mapping"])) and all(
+            isinstance(mp[k], Obj) and mp[k] is not reg.attrs["mapping"][k] and all(mp[k].attrs.get(a_) == reg.attrs["mapping"][k].attrs.get(a_) or
+                                                                                   mp[k].attrs.get(a_) is reg.attrs["mapping"][k].attrs.get(a_)
+                                                                                   for a_ in ("stack_frame", "value_store", "is_source")) for k in mp)
+        ctx.ob(rid, "Registry.copy/keeps-frames", ok, loc(regc.methods["copy"]),
+               "evaluated: copied entries are new objects that keep stack frame, store and source flag" if ok else
+               "evaluated: Registry.copy does not produce independent entries with the original stack frames: failures of store calls planned "
+               "from a copied registry are attributed to another line (or the copy shares entries with the original)")
+    except AbsRaise as e:
+        raise AnalysisError(f"abstract evaluation of the Registry methods raised {e.value!r}")
 
 
 def render_role(m, gsf):
